@@ -1,8 +1,11 @@
 package memberlist
 
+import "net"
+
 import "bytes"
 
 func init() {
+	vRegister("H_C17_Constructor", H_C17_Constructor)
 	vRegister("H_C17_Sequence", H_C17_Sequence)
 	vRegister("H_C17_Rotation", H_C17_Rotation)
 }
@@ -212,4 +215,96 @@ func H_C17_RotationTraffic() {
 		vAssert(len(plain) == size && plain[0] == msg[0] && plain[size-1] == msg[size-1], "c17.traffic.intact")
 	}
 	vCover("c17.traffic")
+}
+
+// C17 through the node constructor: Config.SecretKey with or without a caller-supplied keyring. A key of invalid
+// length is refused and never reaches the ring; otherwise the ring ends with SecretKey installed, primary and
+// first, without duplicates, and every installed key has a valid length.
+func H_C17_Constructor() {
+	conf := vBaseConfig()
+	conf.Logger = vLogger()
+	pool := vDistinctKeys(3)
+	var ring *Keyring
+	var before [][]byte
+	switch vPick(3) {
+	case 1:
+		ring, _ = NewKeyring(nil, pool[0])
+	case 2:
+		ring, _ = NewKeyring([][]byte{pool[1]}, pool[0])
+	}
+	if ring != nil {
+		before = ring.GetKeys()
+	}
+	conf.Keyring = ring
+	valid := true
+	switch vPick(6) {
+	case 0:
+		conf.SecretKey = nil
+	case 1:
+		conf.SecretKey = pool[2]
+	case 2:
+		conf.SecretKey = pool[1] // already a secondary key of the two-key ring
+	case 3:
+		conf.SecretKey = pool[0] // already the primary
+	case 4:
+		conf.SecretKey, valid = vBytes(15), false
+	case 5:
+		conf.SecretKey, valid = vBytes(22), false
+	}
+	rec := &vTransport{packetCh: make(chan *Packet, 1), streamCh: make(chan net.Conn, 1)}
+	conf.Transport = rec
+	m, err := newMemberlist(conf)
+	if err == nil {
+		defer m.Shutdown()
+	}
+	if !valid {
+		vAssert(err != nil, "c17.ctor.invalid-secret-refused")
+		if ring != nil {
+			after := ring.GetKeys()
+			vAssert(len(after) == len(before), "c17.ctor.refused-leaves-ring-alone")
+			for i := range after {
+				if i < len(before) {
+					vAssert(vEqBytes(after[i], before[i]), "c17.ctor.refused-leaves-ring-alone")
+				}
+			}
+		}
+		vCover("c17.ctor.refused")
+		return
+	}
+	vAssert(err == nil, "c17.ctor.created")
+	if err != nil {
+		return
+	}
+	kr := m.config.Keyring
+	if conf.SecretKey == nil && ring == nil {
+		vAssert(kr == nil || len(kr.GetKeys()) == 0, "c17.ctor.no-keys")
+		vCover("c17.ctor.plain")
+		return
+	}
+	vAssert(kr != nil, "c17.ctor.ring")
+	if kr == nil {
+		return
+	}
+	keys := kr.GetKeys()
+	vAssert(len(keys) >= 1, "c17.ctor.nonempty")
+	for i, k := range keys {
+		vAssert(len(k) == 16 || len(k) == 24 || len(k) == 32, "c17.ctor.valid-lengths")
+		for j := 0; j < i; j++ {
+			vAssert(!vEqBytes(k, keys[j]), "c17.ctor.no-duplicates")
+		}
+	}
+	if len(keys) >= 1 {
+		vAssert(vEqBytes(keys[0], kr.GetPrimaryKey()), "c17.ctor.primary-first")
+		if conf.SecretKey != nil {
+			vAssert(vEqBytes(keys[0], conf.SecretKey), "c17.ctor.secret-is-primary")
+		}
+	}
+	for _, b := range before {
+		found := false
+		for _, k := range keys {
+			found = found || vEqBytes(k, b)
+		}
+		vAssert(found, "c17.ctor.caller-keys-kept")
+	}
+	vCover("c17.ctor.ok")
 }
